@@ -104,9 +104,16 @@ Definition is_crit (t : term) : bool :=
   | TAll _ _ | TPeriod _ _ _ _ => true
   | _ => false
   end.
-Definition is_div (t : term) : bool := match t with TArith Div _ _ _ => true | _ => false end.
+(* the right operand of a multiplication is a division, or a product that begins (left spine, printed without parentheses) with one *)
+Fixpoint is_div (t : term) : bool :=
+  match t with
+  | TArith Div _ _ _ => true
+  | TArith Mul l _ _ => is_div l
+  | _ => false
+  end.
 
-(* K1: a division as right operand of a multiplication is printed without parentheses (pinned by the test-suite) *)
+(* K1: a division as right operand of a multiplication - directly, or leading a product that is the right operand - is printed without
+   parentheses (the rule: no parentheses around a product or quotient that is the right operand of a product, is pinned by the test-suite) *)
 (* K2: a criterion used as an operand of arithmetic, unary minus, a comparison, IS NULL, IN or BETWEEN is not parenthesised *)
 Fixpoint kf_c06 (t : term) : bool :=
   match t with
